@@ -27,9 +27,9 @@ func sortParallelRule(w *World, r *Result, only func(fi *FuncInfo) bool) int {
 			if fn == nil || (fn.FullName() != "sort.Slice" && fn.FullName() != "sort.SliceStable") {
 				return true
 			}
-			lit, ok := ast.Unparen(call.Args[1]).(*ast.FuncLit)
-			if !ok {
-				Undecided("SORT-PAR: comparator of %s at %s is not a function literal", fn.Name(), w.Pos(call.Pos()))
+			lit := comparatorLit(info, fi, call.Args[1])
+			if lit == nil {
+				Undecided("SORT-PAR: comparator of %s at %s is neither a function literal nor a local bound once to one", fn.Name(), w.Pos(call.Pos()))
 			}
 			params := map[types.Object]bool{}
 			for _, f := range lit.Type.Params.List {
@@ -62,4 +62,21 @@ func sortParallelRule(w *World, r *Result, only func(fi *FuncInfo) bool) int {
 		})
 	}
 	return n
+}
+
+// comparatorLit: e is a function literal, or a local variable whose only definition is one.
+func comparatorLit(info *types.Info, fi *FuncInfo, e ast.Expr) *ast.FuncLit {
+	if lit, ok := ast.Unparen(e).(*ast.FuncLit); ok {
+		return lit
+	}
+	id := identOf(e)
+	if id == nil {
+		return nil
+	}
+	defs := defsIn(info, fi.Decl, objOf(info, id))
+	if len(defs) != 1 {
+		return nil
+	}
+	lit, _ := ast.Unparen(defs[0]).(*ast.FuncLit)
+	return lit
 }
